@@ -93,3 +93,48 @@ PROPS["C10"] = {
                 "thorough": {"queue_drops": 1000000}},
     "assumptions": ["drop notifications are observed through callbacks installed by the harness (some packets deliberately carry none)"],
 }
+
+_TCP_ASSUME = ["two nodes, one TCP connection per acceptor port (pairing itself is C07's subject)",
+               "library preconditions respected: one outstanding read and write per socket, non-empty first read buffer, non_blocking(true) before read_some",
+               "scripted drops/delays are applied by a harness sink to droppable payload segments only, through the packet's drop callback exactly as sim::queue does"]
+
+PROPS["C05"] = {
+    "level": "exploration",
+    "claim": {
+        "technique": "runtime monitoring: position-coded byte streams verified at every read completion; probe logs for drops/retransmissions; bounded-exhaustive drop/delay patterns",
+        "text": "Every byte handed to a reader is compared on the spot with the byte the writer put at that stream offset (per-connection, per-direction, per-generation keys), so loss, duplication, reordering, corruption, cross-talk and data of an earlier connection on a reused socket are all distinguishable; EOF placement and the prefix bound are checked at quiescence. All 3^7 pass/drop/delay patterns over the first seven payload transmissions are enumerated, everything else is sampled.",
+        "note": "Safety only: a transfer that stalls is C06's business and merely lowers coverage here (reported in the evidence).",
+        "ref": "DESIGN.md 3/C05",
+    },
+    "rule": "cases = (route configuration, 1-2 connections, per-direction length/write-size pattern/scatter-gather layout/reader style, Fault script, close points, 1-3 generations "
+            "of socket reuse); job 'patterns' enumerates {pass,drop,delay}^7 over the first payload transmissions for several size mixes, job 'random' samples everything. "
+            "Non-trivial = the probes saw a drop, delay, retransmission or out-of-order arrival, or a socket was reused; distinct = distinct (descriptor, observed event counts).",
+    "jobs": [
+        {"name": "patterns", "engine": "tcp", "mode": "patterns", "args": {"mixes": T(2, 6)}},
+        {"name": "random", "engine": "tcp", "mode": "random", "args": {"n": T(1500, 60000)}},
+    ],
+    "require": {"quick": {"bytes_verified": 50000000, "cases_with_retransmission": 1000, "cases_with_out_of_order_arrival": 500,
+                          "socket_reuses": 500, "reuse_with_unread_data_left": 50, "streams_reaching_eof": 300},
+                "thorough": {"bytes_verified": 1000000000}},
+    "assumptions": _TCP_ASSUME,
+    "timeout": {"quick": 1500, "thorough": 14400},
+}
+
+PROPS["C06"] = {
+    "level": "exploration",
+    "claim": {
+        "technique": "runtime monitoring: state at quiescence (pending tracked handlers, available(), probe log of drops vs retransmissions) classified by symptom",
+        "text": "run() returning means nothing can happen any more in the closed simulated world, so a pending read with data available, a blocked writer or undelivered accepted bytes at that point is a definitive stall. Configurations are drawn from the statement's envelope (drops produced by the queues themselves; finite queues >= one segment with one direction at a time).",
+        "note": "Liveness is decided per execution at quiescence, not proven; livelock = 5e6 handler executions without the clock moving.",
+        "ref": "DESIGN.md 3/C06",
+    },
+    "rule": "cases = route family of the quantifier (1-3 hops each way, bandwidth 0 or 5 kB/s-50 MB/s, latency 0-500 ms, capacity unlimited or from exactly one "
+            "segment up to MB, bottleneck sender side / network / receiver side, MTU varied) x 1-3 transfer phases (direction reversed only after quiescence when "
+            "queues are finite, bidirectional when unbounded) x write/read size patterns and reader styles. Non-trivial = a queue dropped at least one segment or "
+            "segments arrived out of order; distinct = distinct (descriptor, observed event counts).",
+    "jobs": [{"engine": "tcp", "args": {"n": T(1200, 80000)}}],
+    "require": {"quick": {"cases_with_queue_drop": 300, "retransmissions_on_wire": 50000, "phases_completed": 1500},
+                "thorough": {"cases_with_queue_drop": 20000}},
+    "assumptions": _TCP_ASSUME + ["connections are established before bulk traffic starts (a lost SYN has no retransmission and is outside the statement)"],
+    "timeout": {"quick": 1500, "thorough": 14400},
+}
